@@ -84,8 +84,11 @@ BenignOver(cl, a, R, cutsets) ==
            cuts \in cutsets}
 \* the last bytes of the reply arrive in the same read as the end-of-stream indication (n > 0 together with EOF)
 LastEOF(sc) == [i \in 1..Len(sc) |-> IF i = Len(sc) THEN [sc[i] EXCEPT !.k = "chunkeof"] ELSE sc[i]]
+\* a fragment that is not the last arrives together with the transport's timeout indication (n > 0 and a deadline error)
+FirstDL(sc) == [i \in 1..Len(sc) |-> IF i = 1 /\ Len(sc) > 1 THEN [sc[i] EXCEPT !.k = "chunkdl"] ELSE sc[i]]
 Benign(cl, a, R) ==
     BenignOver(cl, a, R, CutSets(Len(R)))
+    \cup {Exch(cl, a, R, FirstDL(ChunkScript(Len(R), cuts)), "none", 0, 0) : cuts \in {x \in CutSets(Len(R)) : Cardinality(x) = 1}}
     \cup {Exch(cl, a, R, LastEOF(ChunkScript(Len(R), cuts)), "none", 0, 0) : cuts \in {x \in CutSets(Len(R)) : Cardinality(x) <= 1}}
 \* for the many residue cases: all cut sets only of the shorter replies (measured: with all cut sets up to 13 bytes the
 \* thorough generator, then a single process, did not finish in 30 minutes)
@@ -213,9 +216,18 @@ EmbeddedCases(cl, a, R) ==
     {Exch(cl, a, e[1], ChunkScript(L, {e[2] - 1, e[2] + 4} \cap (1..(L - 1))), "none", 0, 0) :
         e \in {x \in {<<[j \in 1..L |-> IF j \in p..(p + 4) THEN ExcReplyTo("rtu", a, code)[j - p + 1] ELSE R[j]], p>> :
                         p \in 2..(L - 4), code \in {1, 2, 4}} : BadTrailer(x[1])}}
+\* the longest reply an RTU ADU can hold (256 bytes, a server-id reply), followed by bytes that make its trailer inconsistent
+MaxArgs == Args(17, 3, 0, 0, <<>>, <<>>, 0, 11)
+ExtendedMax(cl) ==
+    LET R == ReplyTo("rtu", MaxArgs, <<125, 125>>) IN
+    {Exch(cl, MaxArgs, R \o x, sc, "none", 0, 0) :
+        x \in {<<90>>, <<222, 173>>, <<1, 2, 3, 4>>},
+        sc \in {<<Chunk(Len(R) + 4)>>, <<Chunk(100), Chunk(Len(R) + 4 - 100)>>}}
+
 C12Cases(z) ==
     UNION {CorruptCases(cl, a, ReplyTo("rtu", a, <<2, 2>>)) : cl \in {"rtu", "serial"}, a \in ReqShapes("s") \cup (IF Thorough THEN ReqShapes("m") ELSE {})}
     \cup UNION {EmbeddedCases(cl, a, ReplyTo("rtu", a, <<6, 6>>)) : cl \in {"rtu", "serial"}, a \in ReqShapes("m")}
+    \cup UNION {ExtendedMax(cl) : cl \in {"rtu", "serial"}}
     \cup UNION {CorruptCases(cl, a, ExcReplyTo("rtu", a, code)) : cl \in {"rtu", "serial"},
                  a \in {x \in ReqShapes("s") : x.fc \in {3, 16, 17}}, code \in (IF Thorough THEN ExcCodesStd ELSE {2, 11})}
 
